@@ -257,7 +257,9 @@ def templates_for(fd, max_tries=40, kinds=None):
                 continue
             required = not R.has_default(p) and l != '*'
             if l == '*':
-                opts.append((l, [None]))
+                # *args that is not the target: one value from the corpus (an empty *args makes many functions a no-op),
+                # falling back to none when no such call evaluates
+                opts.append((l, (choices_for(p)[:1] if j > tidx else []) + [None]))
             elif l.startswith('k:'):
                 opts.append((l, choices_for(p) if required else [None]))
             elif required or j < tidx:
